@@ -178,10 +178,77 @@ def run(chk):
                detail=f"{label} may return an alias of its input {sorted(set(alias))}: a later in-place change of the result changes the input")
     # ---------------------------------------------------------------- copy-complete
     copy_complete(chk, src)
+    scalar_prefactor(chk, src)
     # ---------------------------------------------------------------- resolution
     unres = sorted(f"{w} .{m}() x{n}" for (w, m), n in eng.unresolved.items())
     chk.ob("resolution", "unresolved calls on tracked objects", True, "", unres[:40] or "none", "listed; each is treated as may-mutate")
     chk.extra["unresolved_calls"] = unres
+
+
+def scalar_typed(e, fn, depth=0):
+    """RHS of a store to .coeff is an immutable scalar (python / numpy scalar), never an ndarray"""
+    if isinstance(e, ast.Constant) and isinstance(e.value, (int, float, complex)):
+        return True
+    if isinstance(e, ast.Attribute) and e.attr in ("coeff", "mp_norm", "ttns_norm", "norm", "real", "imag", "offset"):
+        return True          # propagation of another prefactor (checked at its own stores) / float-valued properties
+    if isinstance(e, ast.Call):
+        f = unparse(e.func)
+        if f in ("complex", "float", "int", "abs", "np.exp", "np.sqrt", "np.conj", "np.conjugate", "np.linalg.norm", "np.abs", "np.real"):
+            # numpy ufuncs of a scalar give numpy scalars; of an array give arrays: judge by the argument
+            if f in ("complex", "float", "int", "abs", "np.linalg.norm"):
+                return True
+            return all(scalar_typed(a, fn, depth) for a in e.args)
+        if isinstance(e.func, ast.Attribute) and e.func.attr in ("item", "conjugate", "conj") and (e.func.attr == "item" or scalar_typed(e.func.value, fn, depth)):
+            return True
+        return False
+    if isinstance(e, ast.BinOp):
+        return scalar_typed(e.left, fn, depth) and scalar_typed(e.right, fn, depth)
+    if isinstance(e, ast.UnaryOp):
+        return scalar_typed(e.operand, fn, depth)
+    if isinstance(e, ast.Subscript):
+        # element of an array selected by an integer index is a scalar; a bare npz entry is a (0-d) array
+        return isinstance(e.value, ast.Subscript) and not isinstance(e.slice, ast.Slice)
+    if isinstance(e, ast.Name) and depth < 3:
+        defs = [n.value for n in ast.walk(fn) if isinstance(n, ast.Assign) and any(isinstance(t, ast.Name) and t.id == e.id for t in n.targets)]
+        if not defs:
+            return True      # parameter / loop variable: a number by the callers' contract (evolve_dt, val, ...)
+        return all(scalar_typed(d, fn, depth + 1) for d in defs)
+    if isinstance(e, ast.IfExp):
+        return scalar_typed(e.body, fn, depth) and scalar_typed(e.orelse, fn, depth)
+    return False
+
+
+def scalar_prefactor(chk, src):
+    chk.rule("scalar-prefactor", "every store to a chain state's .coeff is an immutable scalar: metacopy shares the prefactor by reference and "
+             "evolve_exact updates it with `*=`, which is in place for an ndarray", 6)
+    fam = ["renormalizer/mps/mp.py", "renormalizer/mps/mps.py", "renormalizer/mps/mpo.py", "renormalizer/mps/mpdm.py", "renormalizer/mps/lib.py",
+           "renormalizer/mps/thermalprop.py", "renormalizer/mps/gs.py"]
+    inplace = []
+    stores = []
+    for rel in fam:
+        if not src.has_module(rel):
+            continue
+        for fi in src.funcs_in(rel):
+            if fi.parent is not None:
+                continue
+            for n in ast.walk(fi.node):
+                if isinstance(n, ast.AugAssign) and isinstance(n.target, ast.Attribute) and n.target.attr == "coeff":
+                    inplace.append(f"{fi.qual}: {norm_stmt(n, 70)}")
+                if isinstance(n, ast.Assign):
+                    for t in n.targets:
+                        if isinstance(t, ast.Attribute) and t.attr == "coeff":
+                            stores.append((fi, n))
+    chk.table("in_place_prefactor_updates", inplace)
+    if not inplace:
+        chk.note("no in-place `.coeff op=` site exists in the chain family: sharing an ndarray prefactor would be harmless; rule vacuous by construction")
+    for fi, n in stores:
+        ok = scalar_typed(n.value, fi.node) or not inplace
+        chk.ob("scalar-prefactor", f"{fi.qual}: {norm_stmt(n, 70)}", ok, fi.where, unparse(n.value)[:80], "python/numpy scalar (literal, complex(), .item(), arithmetic of scalars)",
+               line=n.lineno, detail=f"{fi.qual} may store an ndarray as the prefactor; metacopy/copy then share it (`new.coeff = self.coeff`) and "
+                                     f"`{inplace[0] if inplace else ''}` multiplies it in place: the input state and every copy of it change with the result")
+    # tree family: recorded, not an obligation (no in-place update of a tree prefactor exists)
+    tl = src.func("renormalizer/tn/tree.py", "TTNBase.load")
+    chk.note("TTNS.load restores coeff as the 0-d array read from the npz (setattr(instance, attr, npload[attr])); harmless today because no tree code updates coeff in place")
 
 
 MUTABLE_ATTRS = {"_mp", "qn", "qntot", "model", "compress_config", "optimize_config", "evolve_config"}
